@@ -390,7 +390,9 @@ func judgeSyntax(cs *synCase, openF2 bool) (what string, excluded bool) {
 	return "", false
 }
 
-var c10ActionCodes = []string{" p.N++ ", " if p.N > 0 { p.N-- } ", " for i := 0; i < 2; i++ { if i > 0 { p.N++ } } ", "{}", " p.S = \"<-\" ", "\n p.N++\n", " // c\n p.N++\n ", ""}
+var c10ActionCodes = []string{" p.N++ ", " if p.N > 0 { p.N-- } ", " for i := 0; i < 2; i++ { if i > 0 { p.N++ } } ", "{}", " p.S = \"<-\" ", "\n p.N++\n", " // c\n p.N++\n ", "",
+	// quotes that are not string delimiters, with braces between them and the next real string
+	" if c := '\"'; c == 34 { p.S = \"q\" } ", " p.S = `\"`; if p.N > 0 { p.S = \"x\" } ", " if p.S == \"\\\"\" { p.N++ }; p.S = \"y\" ", " /* \" */ if p.N > 0 { p.S = \"z\" } "}
 
 func c10Gen(t *rapid.T) synCase {
 	prof := rapid.SampledFrom([]string{"plain", "liney", "switchy", "deep"}).Draw(t, "profile")
